@@ -20,7 +20,7 @@ def run_wqcases(chk, pid, runner, tier, seed, workdir, log, only_key):
                                 "signature": "harness-build", "found_failing_input": False})
         return res
     base = [exe, "-seed", str(seed), "-tier", tier, "-prop", runner.get("prop", pid)] + runner.get("args", [])
-    r = chk.run(base + ["-out", out], cwd=workdir, timeout=runner.get("timeout", 1800))
+    r = chk.run(base + ["-out", out], cwd=workdir, timeout=runner.get("timeout", 170 if tier == "quick" else 2400))
     log.append(("harness " + name, r.returncode, (r.stdout[-1000:] + r.stderr[-3000:])))
     if r.returncode != 0:
         res["failures"].append({"kind": "correspondence", "theorem_or_correspondence": corr,
@@ -82,7 +82,7 @@ def run_wqcases(chk, pid, runner, tier, seed, workdir, log, only_key):
     json.dump([{"W": cases[i]["desc"]["W"], "L": cases[i]["desc"]["L"], "stimuli": cases[i]["desc"]["stimuli"]}
                for i, _, _ in chosen], open(rr, "w"))
     out2 = os.path.join(workdir, name + "-rerun")
-    r2 = chk.run(base + ["-rerun", rr, "-times", "3", "-out", out2], cwd=workdir, timeout=600)
+    r2 = chk.run(base + ["-rerun", rr, "-times", "3", "-out", out2], cwd=workdir, timeout=120 if tier == "quick" else 600)
     log.append(("harness rerun", r2.returncode, r2.stderr[-2000:]))
     repro = {}
     if r2.returncode == 0:
@@ -142,7 +142,7 @@ def run_wqstress(chk, pid, runner, tier, seed, workdir, log, only_key):
     out = os.path.join(workdir, "stress.json")
     cmd = [exe, "-seed", str(seed), "-tier", tier, "-prop", runner.get("prop", pid), "-out", out]
     try:
-        r = chk.run(cmd, cwd=workdir, timeout=runner.get("timeout", 1500))
+        r = chk.run(cmd, cwd=workdir, timeout=runner.get("timeout", 170 if tier == "quick" else 2400))
         rc, err = r.returncode, r.stderr
     except subprocess.TimeoutExpired as e:
         rc, err = -9, "watchdog: stress harness did not finish: " + str(e)
